@@ -501,7 +501,64 @@ class ReferenceClassesBounded:
         return fn
 
 
+class DiscoverReferencesBounded:
+    """BOUNDED stand-in (native) for FlowIR.discover_reference_strings, which C11 (undeclared references in the arguments)
+    and C16 (references in the arguments are replaced by hashes) use through an assumed contract: in a command line built
+    from reference tokens and separators it finds exactly the tokens, and maps each to its absolute spelling (a relative
+    reference to a known component of the implied stage gets the stage; everything else is kept)."""
+    name = 'discover-reference-strings[bounded,native]'
+    TEMPLATES = ['--in {0} --flag', '{0} {1}', 'x={0},y={1}', '"{0}" \'{1}\'', '-i {0} ; echo {1} > out.txt', '{1} {0} {1}']
+
+    def run(self, tier='quick', seed=0):
+        known = [(0, 'Generate'), (1, 'comp-1'), (1, 'md.equil'), (12, 'Generate')]
+        bad, cases = [], 0
+        toks = []
+        for implied in (0, 1):
+            for (st, name) in known:
+                for f in (None, 'out.txt', 'dir/f.csv'):
+                    for m in ('ref', 'copy', 'output'):
+                        tail = ('/' + f if f else '') + ':' + m
+                        toks.append((implied, 'stage%d.%s%s' % (st, name, tail), 'stage%d.%s%s' % (st, name, tail)))
+                        if st == implied:
+                            toks.append((implied, name + tail, 'stage%d.%s%s' % (st, name, tail)))
+            toks.append((implied, 'data/input.dat:ref', 'data/input.dat:ref'))
+            toks.append((implied, 'Unknown/x:copy', 'Unknown/x:copy'))
+        import itertools
+        for t_i, template in enumerate(self.TEMPLATES):
+            for k in range(0, len(toks) - 1, 3):
+                a, b = toks[k], toks[k + 1]
+                if a[0] != b[0]:
+                    continue
+                cases += 1
+                text = template.format(a[1], b[1])
+                out_map = {}
+                try:
+                    got = FlowIR.discover_reference_strings(text, a[0], list(known), out_map)
+                    want_map = {a[1]: a[2]}
+                    if '{1}' in template:
+                        want_map[b[1]] = b[2]
+                    ok = out_map == want_map and got == sorted(want_map.values())
+                    what = None if ok else "in %r (implied stage %d) found %r, expected %r" % (text, a[0], out_map, want_map)
+                except Exception as err:
+                    what = "on %r: %s: %s" % (text, type(err).__name__, err)
+                if what:
+                    bad.append({"what": what, "replay": self._replay(text, a[0], what)})
+        return {"name": self.name, "bounded": True, "bound": "%d command lines (%d templates)" % (cases, len(self.TEMPLATES)),
+                "cases": cases, "violations": bad[:3], "summary": "%d command lines, %d wrong" % (cases, len(bad))}
+
+    def _replay(self, text, implied, what):
+        import json
+        base = os.environ.get('PYVC_OUT') or os.path.dirname(os.path.dirname(os.path.abspath(__file__)))
+        p = os.path.join(base, 'replays', 'C09')
+        os.makedirs(p, exist_ok=True)
+        fn = os.path.join(p, 'discover_reference_strings.json')
+        json.dump({"check": self.name, "text": text, "implied_stage": implied, "failed": what,
+                   "how": "FlowIR.discover_reference_strings(text, implied_stage, [(0,'Generate'),(1,'comp-1'),(1,'md.equil'),(12,'Generate')], out_map)"},
+                  open(fn, 'w'), indent=1)
+        return fn
+
+
 TARGETS = [CompileReference(), ParsePrint(), Classify(), NonComponentForms(), Expand(), ExpandIdempotent(), ManifestTopLevel(), ExpandList(), DataReferenceClass(),
            ComponentIdentifierClass()]
 LEMMAS = []
-BOUNDED = [ReferenceClassesBounded()]
+BOUNDED = [ReferenceClassesBounded(), DiscoverReferencesBounded()]
